@@ -246,15 +246,88 @@ async def sender_trace(n_msgs, seg_text_len, deny_script):
 
 
 def oracle_sender(events):
-    """every write is preceded, since the previous write, by an 'allow' then a 'limit' with no 'deny' after that allow"""
+    """every write has, since the previous write, its own pass through the rate limiter and its own 'allow' from the throttle handler,
+    with no 'deny' after that allow"""
     state = []
     for ev in events:
         if ev == 'write':
-            if state[-2:] != ['allow', 'limit']:
-                return f'submit_sm written after {state[-3:]} (needs its own allow then limit)'
+            if 'limit' not in state or [e for e in state if e != 'limit'][-1:] != ['allow']:
+                return f'submit_sm written after {state[-3:]} (needs its own allow and its own limiter pass)'
             state = []
         else:
             state.append(ev)
+    return None
+
+
+def session_throttle(rate, sample, deny, n_msgs, throttled_answers, answer_delay, period=180.0):
+    """the real ESME.start() on a virtual-time loop with the real SimpleRateLimiter and SimpleThrottleHandler against an SMSC that
+    answers some submit_sm with ESME_RTHROTTLED: times of the submit_sm writes and of the responses as the ESME handled them"""
+    import struct
+    from harness import vsess, smppref
+    from aiosmpplib.protocol import SubmitSm, SubmitSmResp
+    from aiosmpplib.state import PhoneNumber
+    from aiosmpplib.ratelimiter import SimpleRateLimiter
+    from aiosmpplib.throttle import SimpleThrottleHandler
+    loop = vsess.VLoop()
+    asyncio.set_event_loop(loop)
+    smsc = vsess.FakeSMSC(loop)
+    undo = vsess.install(loop, smsc)
+    obs = {'writes': [], 'responses': []}
+    try:
+        esme, hook = vsess.quiet_esme(enquire_link_interval=5000.0, socket_timeout=60.0,
+                                      rate_limiter=SimpleRateLimiter(mk_logger(), send_rate=float(rate)) if rate else None,
+                                      throttle_handler=SimpleThrottleHandler(mk_logger(), sampling_period=float(period), sample_size=float(sample), deny_request_at=float(deny)))
+        count = [0]
+
+        def on_pdu(conn, pdu):
+            for p in vsess.split_pdus(pdu)[0]:
+                cmd, seq = struct.unpack('>I', p[4:8])[0], struct.unpack('>I', p[12:16])[0]
+                if cmd in (1, 2, 9):
+                    conn.send(vsess.bind_resp_for(p))
+                elif cmd == 4:
+                    count[0] += 1
+                    obs['writes'].append(loop.time())
+                    status = 0x58 if count[0] in throttled_answers else 0
+                    conn.send(smppref.header(0x80000004, status, seq, b'' if status else b'id%d\x00' % seq), delay=answer_delay)
+        smsc.on_pdu = on_pdu
+
+        def rgate(msg, pdu):
+            if isinstance(msg, SubmitSmResp):
+                obs['responses'].append((loop.time(), int(msg.command_status)))
+            return None
+        hook.received_gate = rgate
+
+        async def main():
+            t = asyncio.create_task(esme.start())
+            await asyncio.sleep(1.0)
+            obs['t0'] = loop.time()
+            for j in range(n_msgs):
+                await esme.broker.enqueue(SubmitSm(short_message='m%d' % j, source=PhoneNumber('1'), destination=PhoneNumber('2'), log_id=f'L{j}'))
+            await asyncio.sleep(min(float(period) - 5.0, 120.0))
+            obs['start_done'] = t.done()
+            if not t.done():
+                t.cancel()
+                try:
+                    await t
+                except BaseException:  # noqa: BLE001
+                    pass
+        loop.run_until_complete(main())
+    finally:
+        undo()
+        vsess.finish(loop)
+    return obs
+
+
+def oracle_session_throttle(obs, sample, deny):
+    """within one sampling window: no submit_sm is written once the responses handled (strictly) earlier are at least sample_size
+    and more than deny_request_at percent of them are throttled"""
+    for i, tw in enumerate(obs['writes']):
+        seen = [st for tr_, st in obs['responses'] if tr_ < tw]
+        if seen and len(seen) >= sample:
+            pct = Fraction(sum(1 for st in seen if st in (0x58, 0x14)), len(seen)) * 100
+            if round2_exact(pct)[0] > deny:
+                return (f'submit_sm number {i + 1} was written at t={tw:.3f} although {len(seen)} responses had been handled before ({float(pct):.2f}% throttled; '
+                        f'sample_size {float(sample)}, deny_request_at {float(deny)}%)')
     return None
 
 
@@ -369,6 +442,42 @@ def run(ctx):
             ctx.violation(msg, {'function': 'sender', 'n_msgs': n_msgs, 'text_len': seglen, 'allow_script': script, 'events': ev[:40]})
         if ev.count('write') < 2:
             ctx.violation('sender wrote fewer than 2 PDUs in the scenario', {'function': 'sender', 'events': ev[:40]})
+    # ---- whole sessions: real limiter + real throttle handler against an SMSC that throttles
+    sess_cases = [(1.0, 1.0, 1.0, 3, (1,), 0.002), (2.0, 2.0, 40.0, 6, (1, 2), 0.05), (0.5, 1.0, 50.0, 3, (1,), 0.3), (5.0, 3.0, 30.0, 9, (2, 3), 0.01),
+                  (0, 1.0, 1.0, 3, (1,), 0.0), (4.0, 2.0, 50.0, 6, (5, 6), 0.2)]
+    for _ in range(60 if ctx.thorough else 6):
+        rate = rng.choice([0, 0.5, 1.0, 2.0, 4.0, 10.0])
+        n_msgs = rng.randint(2, 12)
+        sess_cases.append((rate, float(rng.choice([1, 2, 3, 5])), float(rng.choice([1, 20, 50])), n_msgs,
+                           tuple(sorted(rng.sample(range(1, n_msgs + 1), rng.randint(0, min(3, n_msgs))))), rng.choice([0.0, 0.002, 0.05, 0.4, 1.5])))
+    for rate, sample, deny, n_msgs, thr_at, delay in sess_cases:
+        obs = session_throttle(rate, sample, deny, n_msgs, thr_at, delay)
+        ctx.traces += 1
+        ctx.count('throttle_sessions')
+        ctx.case(('session_throttle', rate, sample, deny, n_msgs, thr_at, delay), nontrivial=bool(thr_at))
+        rp = {'function': 'session_throttle', 'rate': rate, 'sample_size': sample, 'deny_request_at': deny, 'n_msgs': n_msgs,
+              'throttled_answers': list(thr_at), 'answer_delay': delay}
+        if obs.get('start_done'):
+            ctx.violation('start() ended during a throttled session', rp)
+            continue
+        msg = oracle_session_throttle(obs, Fraction(sample), Fraction(deny))
+        if msg:
+            ctx.violation(msg, rp)
+        # the rate bound on the wire: no more than r*T + r + 1 submit_sm in any window of T seconds
+        if rate:
+            w = obs['writes']
+            for a in range(len(w)):
+                for b in range(a, len(w)):
+                    T = w[b] - w[a]
+                    if (b - a + 1) > rate * T + rate + 1 + 1e-9:
+                        ctx.violation(f'{b - a + 1} submit_sm within {T:.3f} s at rate {rate}/s (bound {rate * T + rate + 1:.2f})', rp)
+                        break
+                else:
+                    continue
+                break
+        # never suspended otherwise: with no throttled answers everything is sent
+        if not thr_at and len(obs['writes']) != n_msgs:
+            ctx.violation(f'{len(obs["writes"])} of {n_msgs} messages were sent although no response was throttled', rp)
     if proved or not getattr(ctx, 'build_failing', None):
         for name, fn, cases in (
             ('limiter', 'fun p : Q * list Q => ser_lim_run (fst p) 0 (snd p)', lim_cases),
@@ -393,6 +502,11 @@ def replay(ctx, path):
     with open(path) as f:
         r = json.load(f)
     msg = None
+    if r.get('function') == 'session_throttle':
+        obs = session_throttle(r['rate'], r['sample_size'], r['deny_request_at'], r['n_msgs'], tuple(r['throttled_answers']), r['answer_delay'])
+        print('replay: submit_sm written at', [round(x, 3) for x in obs['writes']])
+        print('replay: responses handled at', [(round(t, 3), hex(st)) for t, st in obs['responses']])
+        msg = oracle_session_throttle(obs, Fraction(r['sample_size']), Fraction(r['deny_request_at']))
     if r.get('function') == 'limiter':
         rate = Fraction(r['rate'])
         readings = [Fraction(x) for x in r['readings']]
